@@ -483,6 +483,15 @@ func renderTVal(v *TVal, keyType func(*TVal) types.Type) string {
 		sort.Strings(es)
 		return "{" + strings.Join(es, ",") + "}"
 	}
+	if v.Type != nil {
+		// an empty composite literal
+		switch types.Unalias(v.Type).Underlying().(type) {
+		case *types.Map, *types.Slice, *types.Array:
+			return "{}"
+		case *types.Struct:
+			return "[]"
+		}
+	}
 	return "?"
 }
 
